@@ -27,7 +27,7 @@ ASSUMPTIONS = ['operators whose third-party dependency is not installed are outs
 REQUIRED = ['entries-judged', 'binary:left-only-empty', 'binary:right-only-empty', 'binary:both-empty', 'reference-model-used',
             'generic-rule-used', 'explicit-expectation-used']
 EXHAUSTIVE = {'quick': True, 'thorough': True}
-SHAPES = ['lists', 'tuples', 'four-fields', 'generator', 'none-keys']
+SHAPES = ['lists', 'tuples', 'four-fields', 'generator', 'none-keys', 'chunked-sorts']
 
 H3 = ('f0', 'f1', 'f2')
 
@@ -177,6 +177,10 @@ def judge(case, ctx):
     ctx.seen('entries-judged')
     ctx.op('group:' + e.group)
     a, b = _inputs(e, case)
+    if case['shape'] == 'chunked-sorts':
+        # every sort inside the operator takes the temp-file path (the non-empty side has more than one row)
+        from petl import config as pcfg
+        pcfg.sort_buffersize = 1
     if e.arity == 2:
         ctx.seen({(0,): 'binary:left-only-empty', (1,): 'binary:right-only-empty', (0, 1): 'binary:both-empty'}[tuple(case['empty'])])
     shape = case['shape']
